@@ -289,7 +289,11 @@ pub fn run(ctx: &Ctx, rep: &mut Report) {
         check(site, &s, &format!("random:{}", i), rep);
     });
     // strings a "helpful" normalisation would change (trim, ./, trailing /, case, duplicate /)
-    let norm = ["./x", "x/", " x", "x ", "X", "x/../y", "a//b", "./", "/", "~", "~/x", "e\u{301}", "\u{e9}", ".", "..", "x.", "-x", "+x", "x\ty", "%2f", "&amp;", "x;", "$HOME", "`x`", "a b"];
+    let norm = ["./x", "x/", " x", "x ", "X", "x/../y", "a//b", "./", "/", "~", "~/x", "e\u{301}", "\u{e9}", ".", "..", "x.", "-x", "+x", "x\ty", "%2f", "&amp;", "x;", "$HOME", "`x`", "a b",
+        // placeholder spellings of common templating schemes (a skeleton filled by textual replacement
+        // would rewrite user text that happens to spell a placeholder)
+        "{}", "{0}", "{1}", "{mdt}", "{device}", "{path}", "{policy}", "{policy_body}", "{body}", "{options}", "{threads}", "{modules}", "{definitions}", "{initialization}", "{init}", "{terminate}", "{{mdt}}", "${mdt}", "$mdt", "%(mdt)s", "@mdt@", "%s", "$1", "\\1", "<mdt>", "[mdt]",
+    ];
     par_cases(ctx, "norm", (norm.len() * SITES.len()) as u64, rep, |i, rep| {
         let site = SITES[(i as usize) % SITES.len()];
         check(site, norm[(i as usize) / SITES.len()], &format!("norm:{}", i), rep);
